@@ -116,8 +116,8 @@ Confiners(slot, kind) ==
     [] slot \in {"comment", "bogus-comment", "doctype"} -> AllEsc                          \* needs `>`
     [] slot = "end-tag" -> AllEsc \ {"js", "css"}               \* `>`; a raw quote after `=` swallows what follows
     [] slot \in {"tag-open", "tag-name", "attr-name"} -> {}     \* space, `/`: no escaper removes both
-    [] slot = "attr-dq" -> {"html", "tag", "unq", "urlq", "urlu", "cssstr"}
-    [] slot = "attr-sq" -> {"html", "tag", "unq", "urlq", "urlu", "cssstr", "jsstr", "js", "css"}
+    [] slot \in {"attr-dq", "end-tag-dq"} -> {"html", "tag", "unq", "urlq", "urlu", "cssstr"}
+    [] slot \in {"attr-sq", "end-tag-sq"} -> {"html", "tag", "unq", "urlq", "urlu", "cssstr", "jsstr", "js", "css"}
     [] slot = "attr-unq" -> {"unq", "urlu"}
     [] slot \in {"js-code", "json-value"} -> {"js"}
     [] slot \in {"js-string-dq", "js-string-sq", "json-string"} -> {"jsstr", "urlq", "urlu", "cssstr"}
@@ -130,10 +130,11 @@ Confiners(slot, kind) ==
     [] slot = "css-url" -> {"urlu"}
     [] slot = "css-badurl" -> {"cssstr", "urlq", "urlu"}
     [] OTHER -> {}
-Compatible(ctx, url, slot, kind) == ctx = "inert" \/ Esc(ctx, url) \in Confiners(slot, kind)
+\* no value is shown at an inert hole; the reference makes no claim about an "undefined" slot
+Compatible(ctx, url, slot, kind) == ctx = "inert" \/ slot = "undefined" \/ Esc(ctx, url) \in Confiners(slot, kind)
 
 Agree(ctx, url, slot, kind) ==
-  CASE ctx = "HTML" -> slot \in {"text", "script-data", "style-data"}
+  CASE ctx = "HTML" -> slot \in {"text", "tag-open", "end-tag", "script-data", "style-data"}   \* `<`, `</x ...`: text for the lexer, in step with the tokenizer
     [] ctx = "Tag" -> slot \in {"tag-name", "attr-name"}
     [] ctx \in {"QuotedAttr", "UnquotedAttr"} ->
          /\ slot \in (IF ctx = "QuotedAttr" THEN {"attr-dq", "attr-sq"} ELSE {"attr-unq"})
